@@ -8,7 +8,7 @@
 
 use serde_json::{json, Value};
 
-pub const NDIM: usize = 13;
+pub const NDIM: usize = 14;
 pub type Cfg = [u8; NDIM];
 
 pub const D_TYPES: usize = 0;
@@ -24,28 +24,30 @@ pub const D_SEATED: usize = 9;
 pub const D_TWOSEG: usize = 10;
 pub const D_EXTRALOC: usize = 11;
 pub const D_NEXTDAY: usize = 12;
+pub const D_SHAPE: usize = 13;
 
 /// (name, number of values) per dimension
 pub const DIMS: [(&str, u8); NDIM] = [
     ("types", 5),     // 0 A | 1 A limit 1 | 2 A limit 2 | 3 A + B | 4 A + unused type C
-    ("segLimit", 4),  // 0 none | 1 limit 1 on all route segments | 2 limit 2 on all | 3 limit 1 on direction-0 routes only
+    ("segLimit", 5),  // 0 none | 1 limit 1 on all route segments | 2 limit 2 on all | 3 limit 1 on direction-0 routes only | 4 limit 1 on the FIRST segment of direction-0 routes only (a second segment has none), limit 2 on direction-1 routes
     ("shunting", 5),  // (minimal, deadHead): 0 (0,0) | 1 (300,0) | 2 (0,300) | 3 (600,600) | 4 (900,0): staying put needs longer than a quick dead-head
     ("forbid", 2),    // forbidDeadHeadTrips: 0 absent | 1 true
-    ("depots", 9),    // 0 absent | 1 [] | 2 one depot cap 1 | 3 one depot cap 2 | 4 two depots cap 1 each | 5 total 5, per-type 1 | 6 type not listed | 7 two depots cap 5 | 8 two depots at the SAME location, cap 1 each
-    ("maint", 6),     // 0 absent | 1 slot x1 track | 2 slot x2 tracks | 3 two slots | 4 slot overlapping/tying the trips | 5 slot but parameters.maintenance absent
-    ("maxDist", 3),   // 0 large (1000 km) | 1 binding (60 km) | 2 beyond the stand-in distance of the overflow depot (30 000 km, the value of the repository's sample input)
-    ("deadHeads", 5), // 0 symmetric | 1 asymmetric | 2 slower than a service trip | 3 three locations, non-metric | 4 very quick (60 s)
-    ("costs", 5),     // 0 default | 1 all zero | 2 dead-head cheaper than service | 3 idle dominant | 4 idle three orders of magnitude above everything else
+    ("depots", 10),   // 0 absent | 1 [] | 2 one depot cap 1 | 3 one depot cap 2 | 4 two depots cap 1 each | 5 total 5, per-type 1 | 6 type not listed | 7 two depots cap 5 | 8 two depots at the SAME location, cap 1 each | 9 one depot of total 2 where the first type has its own limit 1 and every other type is listed without one
+    ("maint", 7),     // 0 absent | 1 slot x1 track | 2 slot x2 tracks | 3 two slots | 4 slot overlapping/tying the trips | 5 slot but parameters.maintenance absent | 6 one slot x 4 tracks
+    ("maxDist", 4),   // 0 large (1000 km) | 1 binding (60 km) | 2 beyond the stand-in distance of the overflow depot (30 000 km, the value of the repository's sample input) | 3 a fifth of one trip (10 km): every track of every slot is handed out
+    ("deadHeads", 6), // 0 symmetric | 1 asymmetric | 2 slower than a service trip | 3 three locations, non-metric | 4 very quick (60 s) | 5 three locations where L1 and L2 are the same place (0 s, 0 m apart) and direction-1 trips leave from L2
+    ("costs", 6),     // 0 default | 1 all zero | 2 dead-head cheaper than service | 3 idle dominant | 4 idle three orders of magnitude above everything else | 5 the default coefficients x 10 000 (a finer currency unit): every schedule costs more than 2^32
     ("seated", 2),    // 0 capacity binding | 1 seats binding
     ("twoSeg", 2),    // 0 one-segment routes | 1 direction-0 departures run a two-segment route
     ("extraLoc", 2),  // 0 | 1 an unused third location
     ("nextDay", 2),   // 0 all trips on one day | 1 trips of departure slot 3 run on the following day (two planning days)
+    ("shape", 4),     // how the same instance is written down: 0 plain | 1 deadHeadTrips.indices in the reverse order of the locations array | 2 every Optional[..] field that is unset is written as an explicit null | 3 every top-level array (and allowedTypes) listed in reverse
 ];
 
 #[derive(Clone, Copy, Debug, PartialEq, Eq, PartialOrd, Ord, Hash)]
 pub struct Trip {
     pub vt: u8,   // 0 = A, 1 = B
-    pub dir: u8,  // 0 = L0->L1, 1 = L1->L0 (L1->L2 under deadHeads=3)
+    pub dir: u8,  // 0 = L0->L1, 1 = L1->L0 (L1->L2 under deadHeads=3, L2->L0 under deadHeads=5)
     pub slot: u8, // 0 08:00 | 1 09:00 | 2 09:10 | 3 10:00
     pub dem: u8,  // 0 no passengers | 1 one vehicle | 2 two vehicles | 3 three vehicles
 }
@@ -57,12 +59,15 @@ pub struct Inst {
 }
 
 pub const BASE0: Cfg = [0; NDIM];
+/// the "rich" base: two types, two-segment routes with a limit on the first segment only, dead-head shunting,
+/// a depot with mixed per-type limits, two co-located locations, a two-track slot with binding maximal distance
+pub const BASE4: Cfg = [3, 4, 2, 0, 9, 2, 1, 5, 0, 0, 1, 0, 0, 0];
 /// a slot that overlaps / ties with the trips (local search must displace trips to use it), binding maximal distance
-pub const BASE2: Cfg = [0, 0, 0, 0, 0, 4, 1, 0, 0, 0, 0, 0, 0];
+pub const BASE2: Cfg = [0, 0, 0, 0, 0, 4, 1, 0, 0, 0, 0, 0, 0, 0];
 /// scarce real depot capacity (one depot of capacity 1: overflow depot in use) with a two-track slot and a
 /// maximal distance beyond the overflow depot's stand-in distance: overflow vehicles take part in rotation cycles
-pub const BASE3: Cfg = [0, 0, 0, 0, 2, 2, 2, 0, 0, 0, 0, 0, 0];
-pub const BASE1: Cfg = [0, 0, 0, 0, 0, 2, 1, 0, 0, 0, 0, 0, 0]; // one slot x 2 tracks, binding maximal distance
+pub const BASE3: Cfg = [0, 0, 0, 0, 2, 2, 2, 0, 0, 0, 0, 0, 0, 0];
+pub const BASE1: Cfg = [0, 0, 0, 0, 0, 2, 1, 0, 0, 0, 0, 0, 0, 0]; // one slot x 2 tracks, binding maximal distance
 
 /// all configurations differing from `base` in at most `k` dimensions, simplest first
 pub fn configs(base: Cfg, k: usize) -> Vec<Cfg> {
@@ -188,7 +193,7 @@ impl Inst {
 
     pub fn to_json(&self) -> Value {
         let c = &self.cfg;
-        let three_locs = c[D_DH] == 3 || c[D_EXTRALOC] == 1;
+        let three_locs = c[D_DH] == 3 || c[D_DH] == 5 || c[D_EXTRALOC] == 1;
         let locs: Vec<&str> = if three_locs { vec!["L0", "L1", "L2"] } else { vec!["L0", "L1"] };
 
         // vehicle types
@@ -222,10 +227,11 @@ impl Inst {
 
         // routes: one per (type, direction) that is used
         let dir_ends = |dir: u8| -> (&str, &str) {
-            match (dir, c[D_DH] == 3) {
+            match (dir, c[D_DH]) {
                 (0, _) => ("L0", "L1"),
-                (_, false) => ("L1", "L0"),
-                (_, true) => ("L1", "L2"),
+                (_, 3) => ("L1", "L2"),
+                (_, 5) => ("L2", "L0"),
+                (_, _) => ("L1", "L0"),
             }
         };
         let mut routes: Vec<Value> = vec![];
@@ -238,9 +244,12 @@ impl Inst {
             let lim: Option<i64> = match c[D_SEGLIM] {
                 1 => Some(1),
                 2 => Some(2),
-                3 if dir == 0 => Some(1),
+                3 | 4 if dir == 0 => Some(1),
+                4 => Some(2),
                 _ => None,
             };
+            // the limit of a second segment
+            let lim1: Option<i64> = if c[D_SEGLIM] == 4 { None } else { lim };
             let rid = format!("r_{}_{}", tname, dir);
             let mut segs = vec![];
             if c[D_TWOSEG] == 1 && dir == 0 {
@@ -249,6 +258,8 @@ impl Inst {
                 let mut s1 = json!({"id": format!("{}_s1", rid), "order": 1, "origin": d, "destination": d, "distance": 10000, "duration": 600});
                 if let Some(l) = lim {
                     s0["maximalFormationCount"] = json!(l);
+                }
+                if let Some(l) = lim1 {
                     s1["maximalFormationCount"] = json!(l);
                 }
                 segs.push(s0);
@@ -305,6 +316,7 @@ impl Inst {
             (1, true) => (json!([[0, 1200, 2400], [2400, 0, 1200], [2400, 1200, 0]]), json!([[0, 20000, 40000], [40000, 0, 20000], [40000, 20000, 0]])),
             (2, true) => (json!([[0, 4000, 2400], [4000, 0, 1200], [2400, 1200, 0]]), json!([[0, 70000, 40000], [70000, 0, 20000], [40000, 20000, 0]])),
             (4, false) => (json!([[0, 60], [60, 0]]), json!([[0, 1000], [1000, 0]])),
+            (5, _) => (json!([[0, 1800, 1800], [1800, 0, 0], [1800, 0, 0]]), json!([[0, 30000, 30000], [30000, 0, 0], [30000, 0, 0]])),
             (4, true) => (json!([[0, 60, 60], [60, 0, 60], [60, 60, 0]]), json!([[0, 1000, 1000], [1000, 0, 1000], [1000, 1000, 0]])),
             // non-metric: L0->L2 direct is far longer than via L1, L2->L0 is very short
             (_, _) => (json!([[0, 1800, 5400], [1800, 0, 1800], [600, 1800, 0]]), json!([[0, 30000, 90000], [30000, 0, 30000], [10000, 30000, 0]])),
@@ -315,6 +327,7 @@ impl Inst {
         let slots: Option<Value> = match c[D_MAINT] {
             0 => None,
             1 | 5 => Some(json!([{"id": "m0", "location": slot_loc, "start": fmt_time(6 * 3600), "end": fmt_time(7 * 3600), "trackCount": 1}])),
+            6 => Some(json!([{"id": "m0", "location": slot_loc, "start": fmt_time(6 * 3600), "end": fmt_time(7 * 3600), "trackCount": 4}])),
             2 => Some(json!([{"id": "m0", "location": slot_loc, "start": fmt_time(6 * 3600), "end": fmt_time(7 * 3600), "trackCount": 2}])),
             3 => Some(json!([
                 {"id": "m0", "location": slot_loc, "start": fmt_time(6 * 3600), "end": fmt_time(7 * 3600), "trackCount": 1},
@@ -351,10 +364,15 @@ impl Inst {
                 {"id": "dB", "location": "L1", "capacity": 5, "allowedTypes": all_types_unlimited}
             ])),
             // two depots at one location (a vehicle may end "at the right place" but in the wrong depot)
-            _ => Some(json!([
+            8 => Some(json!([
                 {"id": "dA", "location": "L0", "capacity": 1, "allowedTypes": all_types_unlimited},
                 {"id": "dB", "location": "L0", "capacity": 1, "allowedTypes": all_types_unlimited}
             ])),
+            // mixed: the first type has its own limit, the others are listed without one; only the total binds them
+            _ => {
+                let at: Vec<Value> = type_ids.iter().enumerate().map(|(i, t)| if i == 0 { json!({"vehicleType": t, "capacity": 1}) } else { json!({"vehicleType": t}) }).collect();
+                Some(json!([{"id": "dA", "location": "L0", "capacity": 2, "allowedTypes": at}]))
+            }
         };
 
         let costs = match c[D_COSTS] {
@@ -362,6 +380,7 @@ impl Inst {
             1 => json!({"staff": 0, "serviceTrip": 0, "maintenance": 0, "deadHeadTrip": 0, "idle": 0}),
             2 => json!({"staff": 100, "serviceTrip": 50, "deadHeadTrip": 10, "idle": 20}),
             3 => json!({"staff": 100, "serviceTrip": 50, "maintenance": 10, "deadHeadTrip": 500, "idle": 1000}),
+            5 => json!({"staff": 1000000, "serviceTrip": 500000, "maintenance": 100000, "deadHeadTrip": 5000000, "idle": 200000}),
             // waiting is what costs (an hour of idling outweighs a vehicle unless the vehicle price accounts for idle)
             _ => json!({"staff": 1, "serviceTrip": 1, "maintenance": 1, "deadHeadTrip": 1, "idle": 1000}),
         };
@@ -374,7 +393,7 @@ impl Inst {
             params["forbidDeadHeadTrips"] = json!(true);
         }
         if c[D_MAINT] != 0 && c[D_MAINT] != 5 {
-            params["maintenance"] = json!({"maximalDistance": match c[D_MAXDIST] { 1 => 60000, 2 => 30000000, _ => 1000000 }});
+            params["maintenance"] = json!({"maximalDistance": match c[D_MAXDIST] { 1 => 60000, 2 => 30000000, 3 => 10000, _ => 1000000 }});
         }
 
         let mut inp = json!({
@@ -391,6 +410,52 @@ impl Inst {
         }
         inp["deadHeadTrips"] = json!({"indices": locs, "durations": durations, "distances": distances});
         inp["parameters"] = params;
+        match c[D_SHAPE] {
+            1 => {
+                // the matrices are indexed by `indices`, not by the position in `locations`
+                let n = locs.len();
+                let rev = |m: &Value| -> Value { json!((0..n).map(|i| (0..n).map(|j| m[n - 1 - i][n - 1 - j].clone()).collect::<Vec<_>>()).collect::<Vec<_>>()) };
+                let dh = inp["deadHeadTrips"].clone();
+                inp["deadHeadTrips"] = json!({"indices": locs.iter().rev().collect::<Vec<_>>(), "durations": rev(&dh["durations"]), "distances": rev(&dh["distances"])});
+            }
+            2 => {
+                let set_null = |v: &mut Value, k: &str| {
+                    if v.get(k).is_none() {
+                        v[k] = Value::Null;
+                    }
+                };
+                for t in inp["vehicleTypes"].as_array_mut().unwrap() {
+                    set_null(t, "maximalFormationCount");
+                }
+                for r in inp["routes"].as_array_mut().unwrap() {
+                    for s in r["segments"].as_array_mut().unwrap() {
+                        set_null(s, "maximalFormationCount");
+                    }
+                }
+                if let Some(ds) = inp.get_mut("depots").and_then(|d| d.as_array_mut()) {
+                    for d in ds {
+                        for at in d["allowedTypes"].as_array_mut().unwrap() {
+                            set_null(at, "capacity");
+                        }
+                    }
+                }
+                set_null(&mut inp["parameters"], "forbidDeadHeadTrips");
+                set_null(&mut inp["parameters"]["costs"], "maintenance");
+            }
+            3 => {
+                for k in ["vehicleTypes", "locations", "depots", "routes", "departures", "maintenanceSlots"] {
+                    if let Some(a) = inp.get_mut(k).and_then(|d| d.as_array_mut()) {
+                        a.reverse();
+                    }
+                }
+                if let Some(ds) = inp.get_mut("depots").and_then(|d| d.as_array_mut()) {
+                    for d in ds {
+                        d["allowedTypes"].as_array_mut().unwrap().reverse();
+                    }
+                }
+            }
+            _ => {}
+        }
         inp
     }
 }
